@@ -180,18 +180,72 @@ def script_cfg(slot, cfg):
     return ['SET %d %d %d' % (slot, CFG_KEYS.index(k), v) for k, v in cfg.items()]
 
 
-def simple_case(cid, g, strict, cfg, toks, allocmode=0, free_tree=True, walk=True):
+def simple_case(cid, g, strict, cfg, toks, allocmode=0, free_tree=True, walk=True, variation=None):
+    """One grammar object, one parse.  variation (see vary): implementation-side context that must
+    not change any result - unused extra terminals around the declared ones, and/or an earlier
+    parse (tree freed) on the same object."""
+    v = variation or {}
+    if v.get('pad_before') or v.get('pad_after'):
+        g = dict(g, terms=list(v.get('pad_before', [])) + list(g['terms']) + list(v.get('pad_after', [])))
     L = ['CASE %s' % cid, 'NEW 0'] + script_cfg(0, cfg) + script_read(0, g, strict)
+    k = 0
+    if v.get('pre') is not None:
+        pt = v['pre']
+        L.append('PARSE 0 %d %d %s' % (allocmode, len(pt), ' '.join(str(c) for c in pt)))
+        if free_tree:
+            L.append('FREET 0 1')
+        k = 1
     L.append('VSET -1 0')
     L.append('PARSE 0 %d %d %s' % (allocmode, len(toks), ' '.join(str(c) for c in toks)))
     L.append('COUNTERS')
     L.append('FREEG 0')
     if walk:
-        L.append('WALK 0')
+        L.append('WALK %d' % k)
     if free_tree:
-        L.append('FREET 0 1')
+        L.append('FREET %d 1' % k)
     L.append('END')
     return '\n'.join(L)
+
+
+def vary(key, g, toks, p_pad=0.2, p_pre=0.15):
+    """Deterministic (from key) choice of an implementation-side variation for a case."""
+    import random as _r
+    r = _r.Random('vary:%s' % (key,))
+    v = {}
+    x = r.random()
+    if x < p_pad:
+        used = {c for n, c in g['terms']}
+        names = {n for n, c in g['terms']}
+        total = r.choice([63, 64, 65, 66, 70, 127, 129])
+        nb = r.choice([0, 0, 0, 1, 62, 64])
+        base = r.choice([1000, 1000, 20000])
+        extra = []
+        i = 0
+        while len(extra) + len(g['terms']) < total:
+            c = base + i
+            i += 1
+            if c in used or ('zz%d' % c) in names:
+                continue
+            extra.append(('zz%d' % c, c))
+        v['pad_before'], v['pad_after'] = extra[:nb], extra[nb:]
+    elif x < p_pad + p_pre:
+        v['pre'] = list(toks)
+    return v
+
+
+def strip_variation(r, v):
+    """Remove the ops of the earlier parse from a driver result so that consumers see one parse."""
+    if not v or v.get('pre') is None or 'ops' not in r:
+        return r
+    ops, out, dropped = r['ops'], [], {'parse': 0, 'freet': 0}
+    for o in ops:
+        if o.get('op') in dropped and dropped[o['op']] == 0:
+            dropped[o['op']] = 1
+            r.setdefault('pre_ops', []).append(o)
+            continue
+        out.append(o)
+    r['ops'] = out
+    return r
 
 
 def grammar_text(g):
